@@ -5,7 +5,7 @@ MODULE = "DtailModel.Props.C07"
 TIMED_OPS = ("c07.multi",)
 GROUPS = ["C07", "C01"]
 BINS = True
-LOGGER = {"c07.multi": "none", "c07.sched": "stdout", "c07.pipe": "none", "c07.globid": "none"}
+LOGGER = {"c07.multi": "none", "c07.sched": "stdout", "c07.pipe": "none", "c07.globid": "none", "c07.pause": "stdout"}
 JOBS = 8
 BUDGET = {"quick": 14, "thorough": 200}
 SCHED_BUDGET = {"quick": 160, "thorough": 4000}
@@ -160,10 +160,13 @@ def gen(rng, budget, tier):
     yield from gen_sched(rng, SCHED_BUDGET[tier], tier)
     yield from gen_pipe(rng, PIPE_BUDGET[tier], tier)
     yield from gen_globid(rng, tier)
+    # the logger that serialises all connections, paused and resumed (prompt, statistics display) under load
+    yield "c07.pause 3 4000 25"
+    yield "c07.pause 1 6000 40"
     yield from _gen_multi(rng, budget, tier)
 
 
 def batches(cases):
     return [[c for c in cases if c.startswith("c07.sched")], [c for c in cases if c.startswith("c07.pipe")],
-            [c for c in cases if c.startswith("c07.globid")],
+            [c for c in cases if c.startswith("c07.globid")], [c for c in cases if c.startswith("c07.pause")],
             [c for c in cases if c.startswith("c07.multi")]]
